@@ -16,7 +16,7 @@ from __future__ import annotations
 from ..absint import eval_term
 from ..facts import AnalysisError
 from ..terms import const, contains, is_const, show, strip_sites, subterms
-from ..util import InlineOnly, NoInline, P, Scan, calls_to, engine, loc, param_at
+from ..util import InlineOnly, NoInline, P, Scan, calls_to, engine, loc, param_at, sched_targets
 
 INST = "sd.ServiceInstance"
 ANN = "sd.ServiceAnnouncer"
@@ -294,27 +294,38 @@ def check(run, prog, tier):
 
     # ================================================================== O4 deferred offers re-check
     n4 = 0
-    for fi, recv, e in scan.all():
-        if e.kind != "call" or e.sched not in ("soon", "later") or e.cb is None:
+    seen4 = set()
+    for (fq, recv), fpaths in scan.paths.items():
+      fi = prog.functions[fq]
+      for fp in fpaths:
+        for e in fp.events:
+          if e.kind != "call" or e.sched not in ("soon", "later") or e.cb is None:
             continue
-        cbs = []
-        if e.cb[0] == "bound":
-            cbs = [e.cb]
-        elif e.cb[0] in ("param", "var"):
+          cbs = []
+          argsets = {}
+          for cb_, ca_, ck_ in sched_targets(scan.eng, fp, e, fi):
+            if cb_[0] == "bound":
+                cbs.append(cb_)
+                argsets[cb_] = (ca_, ck_)
+          if not cbs and e.cb[0] in ("param", "var"):
             # callback passed through a local helper: look at the helper's call sites in the same function
-            for e2 in scan.events(fi.qual, recv):
+            for e2 in fp.events:
                 if e2.kind == "call" and e2.fterm is not None and e2.fterm[0] == "closure":
                     for a in e2.args:
                         if a[0] == "bound":
                             cbs.append(a)
-        for cb in cbs:
+          for cb in cbs:
+            if (id(e.node), cb[2]) in seen4:
+                continue
+            seen4.add((id(e.node), cb[2]))
             tgt = prog.functions.get(cb[2])
             if tgt is None or tgt.cls is None or tgt.cls.qual != INST:
                 continue
             ty = scan.eng.typer.type_of(cb[1])
             # does the target transmit an offer with non-zero TTL?
             e4 = engine(prog, InlineOnly(names=(), props=False, max_depth=0))
-            tps = e4.paths(tgt, recv=INST, args=tuple(e.cbargs) if e.cb[0] == "bound" else (("unknown", ("arg",)),), kwargs=(), depth=1)
+            aa, kk = argsets.get(cb, ((("unknown", ("arg",)),), ()))
+            tps = e4.paths(tgt, recv=INST, args=tuple(aa), kwargs=tuple(kk), depth=1)
             run.paths += len(tps)
             sends = False
             unguarded = None
@@ -363,6 +374,10 @@ def check(run, prog, tier):
             if sts and sts[-1].value == const(val):
                 okv = True
         run.ob("O5", f"{fn.qual}:sets-started-{val}", okv, loc(fn), f"{fn.name}() leaves started = {val}")
+
+    # every entry handed to queue_send is transmitted exactly once (C15 rule set as supporting obligations)
+    from .C15 import queue_exactly_once
+    queue_exactly_once(run, prog, tier, "O7")
 
     # ================================================================== O6 helper argument agreement
     sas = prog.lookup_method(ANN, "stop_announce_service")
